@@ -10,6 +10,7 @@ pub mod c14;
 pub mod chat;
 pub mod reg;
 pub mod life;
+pub mod c12;
 
 pub fn threads() -> usize {
     std::env::var("VERIF_THREADS")
@@ -35,6 +36,7 @@ pub fn plan(property: &str, tier: &str) -> Option<Plan> {
         "C14" => Some(c14::plan(quick)),
         "C02" | "C03" => Some(reg::plan(property, quick)),
         "C06" | "C11" | "C19" => Some(life::plan(property, quick)),
+        "C12" => Some(c12::plan(quick)),
         "C01" | "C07" | "C08" | "C09" | "C10" | "C15" | "C16" => Some(chat::plan(property, quick)),
         _ => None,
     }
